@@ -333,4 +333,24 @@ theorem M_sound_altair (cfg : Config) (S0 : State) (p Bm C T k : Nat) (committee
   rw [hp] at this
   cases this
 
+open Zrnt.Proofs.BlockM (P0Const P0AConst P0DConst AltConst AltInv BellatrixBlock Safe) in
+/-- `M_sound_bellatrix` — C03 for bellatrix WITHOUT the premise `OpSteps`: every bellatrix block (of the block type) that the
+specification rejects is rejected by `bellatrix.ProcessBlock` and by `PostSlotTransition`, without panic and without a
+runaway loop. For every pre-state satisfying `AltInv` (see `Zrnt.Proofs.C01.processBlock_bellatrix_eq`). -/
+theorem M_sound_bellatrix (cfg : Config) (S0 : State) (p Bm C T k : Nat) (committee : SyncCommittee) (K : P0Const cfg S0 Bm C)
+    (KA : P0AConst cfg) (KD : P0DConst cfg Bm) (KL : AltConst cfg S0 Bm T) (hsps : 0 < cfg.SECONDS_PER_SLOT) (hF : S0.fork = .bellatrix) (ctx : BlockM.Ctx) (block : SignedBlock)
+    (hb : BellatrixBlock cfg Bm block) (hi : AltInv cfg S0 p Bm C T committee (Zrnt.Proofs.BlockM.blockNeed block k) ctx S0)
+    (htyped : Block.check_types cfg block = .ok ()) (r : Bytes) (hroot : block.o_post_root = some r) :
+    (∀ m, Block.process_block cfg S0 block = .error (.invalid m) → BlockM.processBlock cfg ctx S0 block = .err) ∧
+    (∀ m, Block.state_transition_post_slots cfg S0 block = .error (.invalid m) → BlockM.postSlotTransition cfg ctx S0 block = .err) ∧
+    Safe (BlockM.processBlock cfg ctx S0 block) ∧ Safe (BlockM.postSlotTransition cfg ctx S0 block) ∧
+    (∀ post, BlockM.postSlotTransition cfg ctx S0 block = .ok post →
+      ∀ m, Block.state_transition_post_slots cfg S0 block ≠ .error (.invalid m)) := by
+  have h1 := (Zrnt.Proofs.BlockM.processBlock_bellatrix cfg S0 p Bm C T k committee K KA KD KL hsps hF ctx block hb hi htyped).1
+  have h2 := Zrnt.Proofs.BlockM.postSlot_bellatrix cfg S0 p Bm C T k committee K KA KD KL hsps hF ctx block hb hi htyped r hroot
+  refine ⟨h1.1.2, h2.1.2, h1.2, h2.2, fun post hp m hm => ?_⟩
+  have := h2.1.2 m hm
+  rw [hp] at this
+  cases this
+
 end Zrnt.Proofs.C03
